@@ -58,11 +58,27 @@ package service
 //@   ensures creds == nil && krberr(err, 37) ==> (now#2).Sub(APReq.Authenticator.CTime.Add(int64(APReq.Authenticator.Cusec) * 1000)) > ite(s.maxClockSkew == 0, 300000000000, s.maxClockSkew)
 //@        || APReq.Authenticator.CTime.Add(int64(APReq.Authenticator.Cusec) * 1000).Sub(now#2) > ite(s.maxClockSkew == 0, 300000000000, s.maxClockSkew)
 
-// Replay cache as seen by VerifyAPREQ (its own contract is property C02): only the cache's own maps change.
+// ---- replay cache (property C02). The maps are guarded by Cache.mux: at every acquisition their contents are
+// arbitrary (other goroutines) up to the lock invariant; atlock(e) is e right after the acquisition.
+//@ type service.Cache
+//@   guards mux :: entries
+//@   lockinv mux :: (forall ck string :: present(self.entries, ck) ==> self.entries[ck].replayMap != nil) && (forall c1 string, c2 string :: present(self.entries, c1) && present(self.entries, c2) && c1 != c2 ==> self.entries[c1].replayMap != self.entries[c2].replayMap)
+
+// the record of one presentation: client name string, authenticator time, service name string
+//@ define rc_key(t, sn) := mk("service.replayKey", t, strjoin(sn.NameString, "/"))
+//@ define rc_has(c, ck, k) := present(c.entries, ck) && present(c.entries[ck].replayMap, k)
+//@ define auth_ctime(a) := a.CTime.Add(int64(a.Cusec) * 1000)
+
+// IsReplay is an atomic test-and-set on the set of recorded presentations: it reports a replay exactly when the
+// presentation was recorded at the moment the lock was taken, records it, and forgets nothing.
 //@ func (*service.Cache).IsReplay(c, sname, a) (r)
 //@   modifies entries(c.entries)
-//@   sets lastIsReplay := r
 //@   trusted_frame the inner per-client maps are reached through map values; nothing outside the cache is written
+//@   sets lastIsReplay := r
+//@   ensures r <==> atlock(rc_has(c, strjoin(a.CName.NameString, "/"), rc_key(auth_ctime(a), sname)))
+//@   ensures rc_has(c, strjoin(a.CName.NameString, "/"), rc_key(auth_ctime(a), sname))
+//@   ensures forall ck string, k service.replayKey :: atlock(rc_has(c, ck, k)) ==> rc_has(c, ck, k)
+//@   ensures forall ck string, k service.replayKey :: rc_has(c, ck, k) && !atlock(rc_has(c, ck, k)) ==> ck == strjoin(a.CName.NameString, "/") && k == rc_key(auth_ctime(a), sname)
 //@ func service.GetReplayCache(d) (c)
 //@   pure
 //@   trusted_frame process-wide singleton created under sync.Once
@@ -72,3 +88,8 @@ package service
 // an accepted request was checked against the cache and found new (the cache's own behaviour is property C02).
 //@ ghost lastIsReplay bool
 //@ ghost lastPACBad bool
+
+// addEntry runs inside the caller's critical section.
+//@ func (*service.Cache).addEntry(c, sname, a)
+//@   inline
+//@   requires held(c.mux) == 2
